@@ -26,7 +26,14 @@ func RepoDir() string {
 
 type Rng struct{ s uint64 }
 
-func NewRng(seed uint64) *Rng { return &Rng{s: seed*0x9E3779B97F4A7C15 + 0x1234567} }
+// NewRng: the seed is mixed before use; with a state that is linear in the seed, the streams of the
+// seeds k and k+1 would be shifts of one another (SplitMix64 advances the state by the same constant).
+func NewRng(seed uint64) *Rng {
+	z := seed + 0x1234567
+	z = (z ^ (z >> 33)) * 0xFF51AFD7ED558CCD
+	z = (z ^ (z >> 33)) * 0xC4CEB9FE1A85EC53
+	return &Rng{s: z ^ (z >> 33)}
+}
 func (r *Rng) Next() uint64 {
 	r.s += 0x9E3779B97F4A7C15
 	z := r.s
